@@ -59,3 +59,6 @@ Definition api_sites_ref (v : val) : val :=
   let get n := match lookup (getS n) reference_rules with Some r => r | None => [] end in
   let exc := match getL (argn 1 v) with [] => None | _ => lookup (getS (argn 1 v)) reference_rules end in
   nat_list (sites (get (argn 0 v)) exc (getS (argn 2 v))).
+
+(* several pools at once: [[rule; exc; limits; prots]; ...] -> [[raised; peptides]; ...] *)
+Definition api_pool_multi (v : val) : val := VL (map api_pool (getL v)).
